@@ -400,4 +400,12 @@ def option_probe_specs():
         kw = {"alpha": 1.0, "threshold": val}
       out.append(("%s:%s=%r" % (cls, key, val),
                   {"cls": cls, "kw": kw, "shape": [4, 4]}))
+  # a post-training scale given as a python list / a plain number
+  out.append(("quantized_bits:post_training_scale=list(raw)",
+              {"cls": "quantized_bits", "pts_raw": True, "shape": [4, 4],
+               "kw": {"alpha": "auto_po2",
+                      "post_training_scale": [0.5, 0.25, 1.0, 2.0]}}))
+  out.append(("quantized_bits:post_training_scale=float(raw)",
+              {"cls": "quantized_bits", "pts_raw": True, "shape": [4, 4],
+               "kw": {"alpha": "auto_po2", "post_training_scale": 0.5}}))
   return out
